@@ -6,7 +6,7 @@ NC(c) == [hx |-> 1] @@ c        \* the same container around a payload whose hea
 StdConts == { C(1, 0, 0, "none"), C(2, 0, 0, "mh"), C(2, 1, 7, "sorted"), C(2, 1413, 0, "none"), NC(C(1, 0, 0, "none")), NC(C(2, 1, 7, "sorted")),
               C(2, 32868, 0, "none") }      \* a data padding longer than 32 KiB and not a multiple of it: skipped by reading on a plain stream
 
-QuickIds   == {"b1", "b3", "b5", "b10", "b12", "b13", "b14", "b19"}
+QuickIds   == {"b1", "b3", "b5", "b10", "b12", "b13", "b14", "b15", "b19"}     \* b15: a 16 KiB block (longer than a skip buffer)
 QuickRoots == { <<>>, <<"b1">>, <<"b3", "b4">>, <<"b10">>, <<"b22">> }   \* b10/b22: roots whose CBOR byte-string head is 1 / 3 bytes
 ThorIds    == {"b1", "b3", "b5", "b6", "b8", "b9", "b10", "b12", "b13", "b14", "b15", "b16", "b19"}
 =============================================================================
